@@ -59,9 +59,67 @@ def _cov(dim, band, d, offs):
     return (band, rows)
 
 
+def tpl_parts(tpl):
+    """'T2.0~r3' -> (base 'T2', core 'T2.0', rotation 3); rotation None when there is no '~' part.
+    Templates with a '~' part are the POSITION family: all angular standard deviations are 10 (equal to
+    the only sigma-apr used with them, so that D10 cannot interfere) and the cluster list of the complete
+    input (base network + structural defects) is rotated left by the given number of clusters."""
+    core, _, opt = tpl.partition("~")
+    return core.split(".")[0], core, (int(opt[1:]) if opt else None)
+
+
+# direction sets with repeated targets: noise of the k-th direction in units of its sigma (distinct
+# magnitudes, so that two directions to the same target never carry the same value)
+D_NOISE = (0.4, -0.3, 0.2, -0.1)
+
+
+def d_patterns(tier):
+    """target patterns of the D templates: words of length 3..4 over {A,B,C} with at least two distinct
+    letters.  quick: one word per renaming class (restricted growth strings, 4 + 13); thorough: all 24 + 78"""
+    import itertools
+    out = []
+    for n in (3, 4):
+        for w in itertools.product("ABC", repeat=n):
+            if len(set(w)) < 2: continue
+            if tier != "thorough":
+                first = []
+                for ch in w:
+                    if ch not in first: first.append(ch)
+                if first != sorted(first) or first[0] != "A": continue
+                if "C" in first and "B" not in first: continue
+            out.append("".join(w))
+    return out
+
+
 def build_template(tpl):
     """returns (net, names) ; names: name -> Obs"""
     names = {}
+    base, core, rot = tpl_parts(tpl)
+    tpl = core
+    if base in ("DP", "DF"):
+        # one direction set whose target list is the word core[3:] (repeated targets, closing the horizon ...)
+        #  DP: station = the new point P (targets: fixed A, B, C), P held by three distances which stand in
+        #      the same <obs> cluster BEHIND the directions;
+        #  DF: station = the fixed point A (letters A, B, C -> new P, fixed B, new Q), P and Q held by six
+        #      distances in a cluster of their own BEFORE the set: the last direction is the last observation
+        word = core.split(".")[1]
+        P = [Pt("A", 0, 0, xy="fix"), Pt("B", 200, 0, xy="fix"), Pt("C", 0, 200, xy="fix"), Pt("P", 200, 100, xy="adj")]
+        if base == "DP":
+            st, tmap, zero = "P", {"A": "A", "B": "B", "C": "C"}, 70.0
+        else:
+            P.append(Pt("Q", 100, 200, xy="adj"))
+            st, tmap, zero = "A", {"A": "P", "B": "B", "C": "Q"}, 30.0
+        dirs = []
+        for k, ch in enumerate(word):
+            o = Obs("direction", st, tmap[ch], stdev=10.0); o.name = "r%d" % k; names[o.name] = o; dirs.append(o)
+        def dist(a, b, sd):
+            o = Obs("distance", a, b, stdev=sd); o.name = "d" + a + b; names[o.name] = o; return o
+        if base == "DP":
+            cl = [Cluster("obs", dirs + [dist("P", "A", 5.0), dist("P", "B", 6.0), dist("P", "C", 7.0)], frm="P", zero=zero)]
+        else:
+            cl = [Cluster("obs", [dist(a, b, 5.0 + (k % 3)) for k, (a, b) in enumerate(("AP", "BP", "CP", "AQ", "BQ", "CQ"))]),
+                  Cluster("obs", dirs, frm="A", zero=zero)]
+        return Net(P, cl), names
     if tpl.startswith("T2"):
         (px, py), (qx, qy) = PLACEMENTS[int(tpl.split(".")[1])]
         P = [Pt("A", 0, 0, xy="fix"), Pt("B", 200, 0, xy="fix"), Pt("C", 0, 200, xy="fix"),
@@ -109,6 +167,9 @@ def build_template(tpl):
     for tg in TARGETS[tpl.split(".")[0]]:
         o = names[tg.split(".")[0]]
         if o.kind in ("direction", "angle", "azimuth", "z-angle"): o.stdev = 10.0
+    if rot is not None:                     # position family: every observation is a blunder target
+        for o in names.values():
+            if o.kind in ("direction", "angle", "azimuth", "z-angle"): o.stdev = 10.0
     net = Net(P, cl)
     return net, names
 
@@ -121,8 +182,8 @@ TARGETS = {
 }
 EXACT = {"T2": ["dBP"], "T3": ["hCQ"], "TL": ["hAP"]}
 # the last coordinates record of a point defines its approximate coordinates: an error there is a
-# shift of the approximate coordinates, not a misclosure of that observation
-SHIFT = {"kQ", "kP"}
+# shift of the approximate coordinates, not a misclosure of that observation (defines_approx(); in the
+# document order of the templates these are the records kQ / kP)
 # a point whose ONLY element is one observation, in every role of every type that does not determine
 # it: v-* the point has coordinates (removed after the first revision: singular_coords / null_space),
 # u-* it has none (removed by revision_points).  r-st: the point is the station of two directions.
@@ -444,18 +505,44 @@ def closure(net, R, abs_set):
 
 
 # ------------------------------------------------------------------ blunders
-def set_blunder(net, names, target, f, tol):
-    """give the named observation (component) an error whose REFERENCE positional misclosure is f*tol.
-    Targets that define the approximate coordinates (the last coordinates record of a point) have no
-    misclosure of their own: their error f*tol shifts the approximate coordinates instead."""
+def resolve_target(net, names, target):
+    """-> (Obs, list of component indices or [None]).  name[.components] addresses a named observation of
+    the template; @k the k-th scalar of the input in document order (one component of a vector /
+    coordinate record), @k* the whole record that contains scalar k"""
+    if target.startswith("@"):
+        s = scalars(net)[int(target[1:].rstrip("*"))]
+        o = s.obs
+        if o.kind in ("vec", "coord"): return o, (list(range(o.dim())) if target.endswith("*") else [s.comp])
+        return o, [None]
     nm, _, comps = target.partition(".")
     o = names[nm]
-    want = f * tol
-    base = target.split(".")[0]
     if o.kind in ("vec", "coord"):
-        idx = [(o.comps if o.kind == "coord" else "xyz").index(ch) for ch in comps]
-    else:
-        idx = [None]
+        return o, [(o.comps if o.kind == "coord" else "xyz").index(ch) for ch in comps]
+    return o, [None]
+
+
+def defines_approx(net, o, idx):
+    """does the coordinates record o (components idx) define the approximate coordinates, i.e. is it the
+    last coordinates record of its point for these components in document order?"""
+    if o.kind != "coord": return False
+    last = {}
+    for c in net.clusters:
+        if c.kind != "coordinates": continue
+        for x in c.obs:
+            if x.to == o.to:
+                for ch in x.comps: last[ch] = x
+    flags = {last[o.comps[i]] is o for i in idx}
+    if len(flags) != 1: raise RuntimeError("mixed coordinate record %s" % o.to)
+    return flags.pop()
+
+
+def set_blunder(net, names, target, f, tol, nominal=False):
+    """give the addressed observation (component) an error whose REFERENCE positional misclosure is f*tol.
+    Targets that define the approximate coordinates (the last coordinates record of a point) have no
+    misclosure of their own: their error f*tol shifts the approximate coordinates instead."""
+    o, idx = resolve_target(net, names, target)
+    want = f * tol
+    shift = defines_approx(net, o, idx)
     def put(e):
         if idx[0] is None: o.err = e
         else:
@@ -463,8 +550,12 @@ def set_blunder(net, names, target, f, tol):
             for i in idx: t[i] = e
             o.err = tuple(t)
         fill_values(net)
-    if nm in SHIFT or f == 1.0:
+    if shift or f == 1.0:
         put(want / 1000.0); return
+    if nominal:          # error of positional size f*tol relative to the TRUE orientation / coordinates, no solve
+        if o.kind != "direction": raise ValueError("nominal blunders are defined for directions")
+        XY = approx_coords(net)
+        put(o.err + want / (hdist(XY[o.frm], XY[o.to]) * 1000.0) * R2G); return      # on top of the noise
     def mis(e):
         put(e)
         u = _usable(net)
@@ -478,6 +569,7 @@ def set_blunder(net, names, target, f, tol):
         e0 = want / (d * 1000.0) * R2G
     else:
         e0 = want / 1000.0
+    nominal_e = e0
     e1 = e0 * 1.5
     g0, g1 = mis(e0) - want, mis(e1) - want
     for _ in range(60):
@@ -487,6 +579,11 @@ def set_blunder(net, names, target, f, tol):
         e0, g0 = e1, g1
         e1 = e2; g1 = mis(e1) - want
     if abs(g1) > 2e-7 * want:                 # values are written with 10 decimals (3.5e-7 mm over 224 m)
+        if target.startswith("@") and o.kind == "direction":
+            # position family: a direction whose error is of the size of the noise can stay the median of
+            # its set (misclosure 0 whatever the error): the size f*tol is not attainable, the error of
+            # nominal size is used (the oracle always judges by the reference misclosure actually present)
+            put(nominal_e); return
         raise RuntimeError("blunder solve failed for %s f=%s tol=%s (residual %g)" % (target, f, tol, g1))
 
 
@@ -506,11 +603,17 @@ def build_case(cs):
     net.params["sigma-apr"] = sa; net.params["tol-abs"] = tol
     for d in defects:
         if d.startswith("S:"): add_struct(net, names, d[2:])
-    apply_noise(net); fill_values(net)
+    apply_noise(net)
+    base, core, rot = tpl_parts(tpl)
+    if base in ("DP", "DF"):
+        for k in range(len(core.split(".")[1])): names["r%d" % k].err = D_NOISE[k] * 10.0 * 1e-4
+    fill_values(net)
+    if rot:                                  # position family: rotate the cluster list of the complete input
+        net.clusters = net.clusters[rot:] + net.clusters[:rot]
     for d in defects:
-        if d.startswith("B:"):
+        if d[:2] in ("B:", "N:"):            # B: reference misclosure == f*tol (solved); N: nominal size
             _, tg, f = d.split(":")
-            set_blunder(net, names, tg, float(f), tol)
+            set_blunder(net, names, tg, float(f), tol, nominal=(d[0] == "N"))
     fill_values(net)
     return net
 
@@ -556,6 +659,62 @@ def enumerate_cases(tier):
                     for i in range(len(structs)):
                         for j in range(i + 1, len(structs)):
                             out.append(case_str(tpl, (structs[i], structs[j]), tol, sa))
+    return out + enumerate_positions(tier) + enumerate_dsets(tier)
+
+
+def enumerate_positions(tier):
+    """POSITION family (sigma-apr 10, all angular stdevs 10): templates T2.0 / T3 / TL (thorough: T2.1, T2.2
+    as well), the cluster list rotated so that every cluster is the first / the last one of the input;
+    for every rotation: no defect, a blunder in EVERY scalar of the input in turn (the last one included;
+    vectors and coordinate records: every single component and the whole record), sizes {0.9, 1.1}
+    (thorough: all six), tol-abs {10, 1000}; every structural defect at every rotation of the input that
+    contains it (tol-abs 1000; thorough: 10 as well)."""
+    thorough = tier == "thorough"
+    out = []
+    for core in ["T2.0", "T3", "TL"] + (["T2.1", "T2.2"] if thorough else []):
+        base = core.split(".")[0]
+        net, _ = build_template(core)
+        ncl = len(net.clusters)
+        S = scalars(net)                 # rotation permutes the scalars, their number per record stays
+        for rot in range(ncl):
+            tpl = "%s~r%d" % (core, rot)
+            rn = net.copy(); rn.clusters = rn.clusters[rot:] + rn.clusters[:rot]
+            RS = scalars(rn)
+            for tol in (10.0, 1000.0):
+                out.append(case_str(tpl, (), tol, 10.0))
+                for f in (F_SIZES if thorough else (0.9, 1.1)):
+                    for s in RS:
+                        out.append(case_str(tpl, ("B:@%d:%g" % (s.idx, f),), tol, 10.0))
+                        if s.obs.dim() > 1 and s.comp == 0:
+                            out.append(case_str(tpl, ("B:@%d*:%g" % (s.idx, f),), tol, 10.0))
+        for d in STRUCT[base]:
+            n2, _ = build_template(core); add_struct(n2, _, d)
+            for rot in range(len(n2.clusters)):
+                for tol in ((1000.0, 10.0) if thorough else (1000.0,)):
+                    out.append(case_str("%s~r%d" % (core, rot), ("S:" + d,), tol, 10.0))
+    return out
+
+
+def enumerate_dsets(tier):
+    """direction sets with REPEATED targets (templates DP / DF, sigma-apr 10, stdev 10): every target
+    pattern of d_patterns(tier) x tol-abs {10, 1000} x (no blunder | a blunder at every position of the
+    set, sizes {0.9, 1.1} (thorough: all six) | nominal blunders at every pair of positions, sizes
+    (1.1, 1.1) (thorough: {0.9, 1.1}^2))"""
+    thorough = tier == "thorough"
+    out = []
+    for base in ("DP", "DF"):
+        for w in d_patterns(tier):
+            tpl = "%s.%s" % (base, w)
+            for tol in (10.0, 1000.0):
+                out.append(case_str(tpl, (), tol, 10.0))
+                for f in (F_SIZES if thorough else (0.9, 1.1)):
+                    for k in range(len(w)):
+                        out.append(case_str(tpl, ("B:r%d:%g" % (k, f),), tol, 10.0))
+                pf = [(0.9, 0.9), (0.9, 1.1), (1.1, 0.9), (1.1, 1.1)] if thorough else [(1.1, 1.1)]
+                for i in range(len(w)):
+                    for j in range(i + 1, len(w)):
+                        for fi, fj in pf:
+                            out.append(case_str(tpl, ("N:r%d:%g" % (i, fi), "N:r%d:%g" % (j, fj)), tol, 10.0))
     return out
 
 
@@ -799,6 +958,15 @@ def evaluate_run(net, R, run, alg, V, O):
             V.append(("C14|abs-term-listing|row-matches-no-input-observation|%s" % r["tag"], "alg=%s row %s" % (alg, r)))
         else:
             listed.add(hit.idx)
+            # the row shows the absolute term itself (mm, angular types cc): it must be the reference misclosure
+            mm = (R.mis.get(hit.idx) or R.mis_dead.get(hit.idx) or (None,))[0]
+            if mm is not None:
+                arm = _arm(net, hit)
+                exp = mm if arm is None else mm / 1000.0 / arm * R2G * 1e4
+                if abs(abs(r["b"]) - exp) > 3e-5 * exp + 2e-3:
+                    V.append(("C14|abs-term-listing|term-value|%s" % hit.tag,
+                              "alg=%s %s: listed absolute term %g, reference %.6f (positional misclosure %.6f mm)" % (
+                                  alg, hit.label(), r["b"], exp, mm)))
             if hit.idx in R.mis_dead:       # tested before its point was removed: the row must still be justified
                 m = R.mis_dead[hit.idx]
                 if not m[0] > R.tol:
@@ -862,6 +1030,14 @@ def evaluate_run(net, R, run, alg, V, O):
     # ---- exclusion set against the reference closure (given the listed observations)
     dead, lost = closure(net, R, listed)
     pred_obs = set(dead); pred_pts = set(lost)
+    # rows of the listing == observations given - observations used - structurally unusable observations
+    if T["outlying"] is not None or ex_obs:
+        n_rows = len([r for r in rows if "unparsed" not in r])
+        n_struct = len(pred_obs - listed)
+        if n_rows != len(S) - len(present) - n_struct:
+            V.append(("C14|abs-term-listing|row-count",
+                      "alg=%s %d rows listed; %d observations given, %d used, %d unusable for structural reasons" % (
+                          alg, n_rows, len(S), len(present), n_struct)))
     for i in sorted(ex_obs - pred_obs):
         V.append(("C14|exclusion-set|observation-dropped-without-cause|%s" % S[i].tag, "alg=%s %s" % (alg, S[i].label())))
     for i in sorted(pred_obs - ex_obs):
@@ -908,6 +1084,18 @@ def evaluate_run(net, R, run, alg, V, O):
     return Rx, ex_obs, ex_pts
 
 
+def _arm(net, s):
+    """length (m) that turns the angular absolute term of s into its positional misclosure; None for
+    the linear types"""
+    o = s.obs; k = o.kind
+    if k not in ("direction", "azimuth", "angle", "z-angle"): return None
+    XYZ = approx_coords(net)
+    if k == "angle": return max(hdist(XYZ[o.frm], XYZ[o.bs]), hdist(XYZ[o.frm], XYZ[o.fs]))
+    d = hdist(XYZ[o.frm], XYZ[o.to])
+    if k == "z-angle": d = math.sqrt(d * d + (XYZ[o.to][2] - XYZ[o.frm][2]) ** 2)
+    return d
+
+
 def _unexplained(net, R, S, i, listed, ex_obs):
     """is the exclusion of scalar i not explained by the structural closure of the listed observations?"""
     dead, lost = closure(net, R, listed - {i})
@@ -917,14 +1105,14 @@ def _unexplained(net, R, S, i, listed, ex_obs):
 def defect_class(defects):
     out = []
     for d in defects:
-        out.append(d[2:] if d.startswith("S:") else "B-" + re.match(r"[a-z]+", d.split(":")[1]).group(0))
+        out.append(d[2:] if d.startswith("S:") else "B-" + (re.match(r"[a-z]+", d.split(":")[1]) or re.match("@", "@")).group(0))
     return "+".join(sorted(out)) or "none"
 
 
 def run_case(arg):
     """worker: one case string, all algorithms.  returns a dict (picklable)"""
     cs, exe, tmp, algs, num = arg
-    out = {"case": cs, "num": num, "viol": [], "outcomes": [], "runs": 0, "reduced": 0, "skipped3": 0, "worst": {}, "sample": None}
+    out = {"case": cs, "num": num, "viol": [], "outcomes": [], "runs": 0, "reduced": 0, "skipped3": 0, "unclean": 0, "worst": {}, "sample": None}
     try:
         net = build_case(cs)
     except Exception as e:  # construction failure is a harness error, make it loud
@@ -949,6 +1137,16 @@ def run_case(arg):
                     out["skipped3"] += 1; O[-1] += "|deletion-not-expressible"
                 else:
                     g2 = to_gkf(red); files["reduced.gkf"] = g2
+                    # the two-run relation is defined when the reduced input is itself free of gross
+                    # absolute terms: deleting directions moves the median orientation of their set, and
+                    # what is left can exceed tol-abs under the new orientation (two blunders in one set)
+                    key = tuple(sorted(ex_obs)), tuple(sorted(ex_pts))
+                    if key not in red_cache:
+                        # (R.d10 = what the tree removes from an input, D10 included; == exceed_doc when stdev == sigma-apr)
+                        R2r = reference(red); red_cache[key] = bool(R2r.d10 or R2r.ambig)
+                    if red_cache[key]:
+                        out["unclean"] += 1; O[-1] += "|reduced-input-has-gross-terms"; red = None
+                if red is not None:
                     run2 = run_gama(exe, g2, tmp, tag + alg + "r", args=("--algorithm", alg), want=("xml",))
                     out["runs"] += 1; out["reduced"] += 1
                     R2 = parse_result(run2.xml) if (run2.rc == 0 and run2.xml) else None
